@@ -2,10 +2,12 @@ package engines
 
 import (
 	"fmt"
+	vestingtypes "github.com/cosmos/cosmos-sdk/x/auth/vesting/types"
 	"math/big"
 	"sort"
 	"strings"
 	"testing"
+	"time"
 
 	sdkmath "cosmossdk.io/math"
 	sdk "github.com/cosmos/cosmos-sdk/types"
@@ -152,6 +154,15 @@ func newErcFixture(t *testing.T, p *hx.Proto, runners bool) (*ercFixture, *chain
 	f.addrs[6] = c.deployRuntime("erc-fwd-2", code)
 	f.fwd[5], f.fwd[6] = true, true
 	f.addrs[7] = common.HexToAddress("0x00000000000000000000000000000000000f4e57") // no account yet
+	{                                                                              // a holder whose coins are partly locked by vesting (it only receives and is looked at; it never sends)
+		a := common.HexToAddress("0x00000000000000000000000000000000000e5780")
+		ak := c.s.ChainApp.AccountKeeper()
+		baseAcc := ak.NewAccountWithAddress(ctx, a.Bytes()).(*authtypes.BaseAccount)
+		bva, err := vestingtypes.NewBaseVestingAccount(baseAcc, sdk.NewCoins(sdk.NewInt64Coin("utwo", 700), sdk.NewInt64Coin(c.evmDenom, 900)), ctx.BlockTime().Add(1000*time.Hour).Unix())
+		require.NoError(t, err)
+		ak.SetAccount(ctx, vestingtypes.NewDelayedVestingAccountRaw(bva))
+		f.addrs[8] = a
+	}
 	f.addrs[90] = common.BytesToAddress(authtypes.NewModuleAddress(authtypes.FeeCollectorName))
 	f.addrs[91] = common.BytesToAddress(authtypes.NewModuleAddress(evmtypes.ModuleName))
 	f.addrs[92] = cpctypes.CpcModuleAddress
@@ -163,6 +174,8 @@ func newErcFixture(t *testing.T, p *hx.Proto, runners bool) (*ercFixture, *chain
 	for i := 1; i <= 6; i++ {
 		fund(f.addrs[i], "utwo", big.NewInt(int64(1000*i)))
 	}
+	fund(f.addrs[8], "utwo", big.NewInt(750))
+	fund(f.addrs[8], c.evmDenom, big.NewInt(950))
 	fund(f.addrs[5], c.evmDenom, big.NewInt(5000))
 	fund(f.addrs[6], c.evmDenom, big.NewInt(6000))
 	{ // the cpc module account holds some too
@@ -399,6 +412,17 @@ func TestEngineErc20(t *testing.T) {
 				amt = new(big.Int).Set(al)
 			}
 			doCall(tok, caller, "burnFrom", from, 0, amt)
+		case k < 93: // a zero-value plain EVM message to an address (touches it; it holds coins of some denomination or nothing)
+			to := hx.Pick(r, []int{1, 2, 3, 4, 7, 8, 5})
+			op := fmt.Sprintf("etouch c=%d a=%d", caller, to)
+			from := f.addrs[1+r.Intn(4)]
+			_, err := f.call(from, f.addrs[to], nil)
+			if err != nil {
+				p.Emit(op, "error "+f.digest())
+			} else {
+				p.Emit(op, "ok "+f.digest())
+			}
+			p.Count("touch")
 		default:
 			// native bank send through the real message server
 			from, to := 1+r.Intn(4), anyAddr()
